@@ -9,8 +9,9 @@
 
 import ast
 import math
+import re
 
-from report import AnalysisError
+from report import AnalysisError, STAGE_FAILED
 from pyfront import Repo, CFG, canon
 from pyutil import rel
 from consteval import Ev, Unknown, Raised
@@ -27,7 +28,9 @@ EXPLANATION = (
     "The incremental update is reduced to a complete decision table over its carry conditions {delta == 1, new T3 == 0, "
     "new T2 == 0} whose leaves are modular increments; moduli, GSM_MAX_FN == 2715648 == Python GSM_HYPERFRAME == "
     "2048*26*51 and gcd(26,51) == 1 are folded constants. The quantifier over all frame numbers is covered because "
-    "the compared objects are the formulas themselves, not their values.")
+    "the compared objects are the formulas themselves, not their values. A local helper that is handed the caller's own "
+    "struct gsm_time pointer is substituted (fields renamed, early returns kept as conditions), Python assertions / defensive "
+    "raises are conditional arms decided by intervals over FN in 0..2715647; every rule group is a deferred stage.")
 ASSUMPTIONS = [
     "arithmetic consequences of the verified formulas (round trip for each of the 2715648 frame numbers, agreement of the "
     "incremental and the recomputed time at every carry point) follow by the Chinese remainder argument from the checked "
@@ -398,6 +401,103 @@ def ivtxt(iv):
     return "[%s, %s]" % (f(iv[0]), f(iv[1]))
 
 
+def decide_cond(c, rng=None, tables=None):
+    """truth value of a condition term for every valuation inside `rng` (intervals of its symbols): True / False,
+    or None when the intervals do not decide it.  Sound: a verdict is given only when it holds on the whole box."""
+    k = c[0]
+    if k == "c":
+        return bool(c[1])
+    if k == "not":
+        v = decide_cond(c[1], rng, tables)
+        return None if v is None else not v
+    if k in ("and", "or"):
+        vs = [decide_cond(x, rng, tables) for x in c[1:]]
+        if k == "and":
+            return False if any(v is False for v in vs) else True if all(v is True for v in vs) else None
+        return True if any(v is True for v in vs) else False if all(v is False for v in vs) else None
+    if k == "cmp" and c[1] in ("<", "=="):
+        a, b = c[2], c[3]
+        ia, ib = interval(a, rng, tables), interval(b, rng, tables)
+        if c[1] == "<":
+            if ia[1] < ib[0]:
+                return True
+            if ia[0] >= ib[1]:
+                return False
+            if a[0] == "mod" and a[2] == b and ib[0] > 0:
+                return True             # (x mod n) < n for n > 0
+            return None
+        if a == b and -INF < ia[0] and ia[1] < INF:
+            return True
+        if ia[1] < ib[0] or ib[1] < ia[0]:
+            return False
+        if ia[0] == ia[1] == ib[0] == ib[1]:
+            return True
+        return None
+    return None
+
+
+def prune(t, rng, tables=None, band=None, log=None):
+    """drop the arms of conditionals that cannot be taken inside `rng` (defensive branches, assertions): a
+    condition decided by decide_cond is folded, everything else is left alone.  `log` collects (condition, value)."""
+    def leaf(x):
+        if x[0] == "ite":
+            c = renorm(x[1], leaf, band)
+            v = decide_cond(c, rng, tables)
+            if v is not None:
+                if log is not None:
+                    log.append((c, v))
+                return renorm(x[2] if v else x[3], leaf, band)
+            return ite_(c, renorm(x[2], leaf, band), renorm(x[3], leaf, band))
+        return None
+    return renorm(t, leaf, band)
+
+
+def evalnum(t, env):
+    """value of a term under a valuation of its symbols (checker-side arithmetic on the normal form, Python/floor
+    semantics, non-negative operands only where C and mathematics could differ); a ('raise', ..) / ('tuple', ..) /
+    ('none',) leaf is returned as it stands; None when something is unbound or outside this small vocabulary"""
+    k = t[0]
+    if k == "c":
+        return t[1]
+    if k == "v":
+        return env.get(t)
+    if k in ("raise", "tuple", "none"):
+        return t
+    if k == "ite":
+        c = evalnum(t[1], env)
+        return None if not isinstance(c, int) else evalnum(t[2] if c else t[3], env)
+    a = [evalnum(x, env) for x in t[1:] if isinstance(x, tuple)]
+    if any(not isinstance(x, int) for x in a):
+        return None
+    if k == "+":
+        return sum(a)
+    if k == "*":
+        v = 1
+        for x in a:
+            v *= x
+        return v
+    if k in ("mod", "div") and a[0] >= 0 and a[1] > 0:
+        return a[0] % a[1] if k == "mod" else a[0] // a[1]
+    if k == "cmp" and t[1] in ("<", "=="):
+        return int(a[0] < a[1]) if t[1] == "<" else int(a[0] == a[1])
+    if k == "not":
+        return int(not a[0])
+    if k in ("and", "or"):
+        return int(all(a)) if k == "and" else int(any(a))
+    return None
+
+
+def boundary_witnesses(t, lo, hi, extra=()):
+    """values of one symbol worth trying: the ends of its range, the given carry points and every constant that a
+    condition of t compares with (and its neighbours)"""
+    out = {lo, lo + 1, hi - 1, hi} | set(extra)
+    for c in atoms_of(t):
+        for x in subterms(c):
+            if x[0] == "c":
+                out |= {x[1] - 1, x[1], x[1] + 1}
+    return sorted(v for v in out if lo <= v <= hi)
+
+
 # ------------------------------------------------------------------------------
 # forward substitution: Python
 
@@ -578,6 +678,13 @@ class PySym:
             if isinstance(st, ast.Expr):
                 self.effects.append(self.lower(st.value, env))
                 continue
+            if isinstance(st, ast.Assert):
+                # `assert c` is `if not c: raise AssertionError`; whether the raising arm can be reached is decided
+                # on the term (prune) -- it is never ignored
+                c = truth(self.lower(st.test, env))
+                if c[0] == "c" and c[1]:
+                    continue
+                return ("br", c, self.block(stmts[i + 1:], env), ("raise", "AssertionError"))
             if isinstance(st, (ast.For, ast.While)) and self.loops == "havoc":
                 self._havoc(st, env)
                 continue
@@ -735,6 +842,12 @@ class CSym:
                "*" in a.get("type", {}).get("qualType", "")]
         if name in self.opaque and not ptr:
             return ("call", name) + tuple(args)
+        if has_body and ptr and name not in self.opaque:
+            # a function of the same TU that is handed the caller's own pointers (an extracted helper working on the
+            # same object): its body is substituted with `q->f` standing for the caller's `p->f`.  Anything else
+            # about a local function with pointer arguments is outside the vocabulary -- never an opaque effect
+            # (its stores would be invisible and every comparison downstream meaningless).
+            return self._inline_through(m, name, f, ks[1:], args, lw)
         if has_body and not ptr and self.depth < 3:
             ps = [p.get("name") for p in self.tu.fparams(f)]
             if len(ps) != len(args):
@@ -768,6 +881,98 @@ class CSym:
             for k in keys:
                 lw.env[k] = ("post", name, k.split("->", 1)[1]) + tuple(args)
         return ("call", name) + tuple(args)
+
+    def _plain_pointer_params(self, f, pids):
+        """every use of the pointer parameters `pids` in f is `q->field` or a plain argument of a call: the
+        parameter is never re-pointed, indexed, dereferenced as a whole, compared or has its address taken"""
+        for n in walk(self.tu.body(f)):
+            if kind(n) != "DeclRefExpr" or n.get("referencedDecl", {}).get("id") not in pids:
+                continue
+            child, cur = n, self.tu.parent.get(id(n))
+            while cur is not None and (kind(cur) == "ParenExpr" or (
+                    kind(cur) == "ImplicitCastExpr" and cur.get("castKind") in ("LValueToRValue", "NoOp"))):
+                child, cur = cur, self.tu.parent.get(id(cur))
+            if cur is not None and kind(cur) == "MemberExpr" and cur.get("isArrow"):
+                continue
+            if cur is not None and kind(cur) == "CallExpr" and kids(cur)[0] is not child:
+                continue
+            return False
+        return True
+
+    def _inline_through(self, m, name, f, argnodes, args, lw):
+        """call of a same-TU function with pointer arguments: substitute its body, the callee's `q->f` being the
+        caller's `p->f` (value at the call), and write the fields it stores back into the caller's environment as
+        conditional terms over the callee's own branch conditions (early returns included)."""
+        why = None
+        ps = self.tu.fparams(f)
+        if self.depth >= 3:
+            why = "call depth exceeded"
+        elif len(ps) != len(args) or f.get("variadic"):
+            why = "cannot bind the arguments"
+        bind, init, pids = {}, {}, set()
+        if why is None:
+            for p, a, v in zip(ps, argnodes, args):
+                pt = p.get("type", {}).get("qualType", "")
+                s = strip(a)
+                at = s.get("type", {}).get("qualType", "")
+                if "*" in pt or "[" in pt:
+                    if kind(s) != "DeclRefExpr" or "*" not in at or "[" in at or ctext(s) in lw.env:
+                        why = "pointer argument `%s` is not one of the caller's own (never re-pointed) pointers" % ctext(a)[:40]
+                        break
+                    if ctext(s) in bind.values():
+                        why = "the same object is passed twice (aliasing)"
+                        break
+                    bind[p.get("name")] = ctext(s)
+                    pids.add(p.get("id"))
+                elif "*" in at:
+                    why = "pointer argument `%s` bound to a non-pointer parameter" % ctext(a)[:40]
+                    break
+                else:
+                    init[p.get("name")] = v
+        if why is None and not self._plain_pointer_params(f, pids):
+            why = "the callee uses a pointer parameter other than as `p->field` or as a plain call argument"
+        if why is not None:
+            raise AnalysisError("forward substitution (C): %s() is defined in this file and takes pointers, but cannot be "
+                                "substituted: %s" % (name, why))
+        for q, p in bind.items():
+            for k, v in lw.env.items():
+                if k.startswith(p + "->"):
+                    init[q + k[len(p):]] = v
+        back = {}           # callee symbol -> caller term
+        for q, p in bind.items():
+            back[q] = V(p)
+
+        def ren(t):
+            if t[0] == "v":
+                if t[1] in back:
+                    return back[t[1]]
+                for q, p in bind.items():
+                    if t[1].startswith(q + "->"):
+                        return V(p + t[1][len(q):])
+            return None
+        ne, npth = len(self.effects), len(self.path)
+        self.depth += 1
+        try:
+            out = self.block([self.tu.body(f)], init)
+        finally:
+            self.depth -= 1
+        for i in range(ne, len(self.effects)):
+            pth, cal, eargs = self.effects[i]
+            pth = pth[:npth] + tuple((renorm(c, ren), pol) for c, pol in pth[npth:])
+            self.effects[i] = (pth, cal, tuple(renorm(a, ren) for a in eargs))
+        # what the callee stored: fields of the objects handed in (renamed back) and file-level objects; its own
+        # locals and parameters die with it
+        own = {p.get("name") for p in ps} | {n.get("name") for n in walk(self.tu.body(f)) if kind(n) == "VarDecl"}
+        stored = set()
+        for _, leaf in leaves(out):
+            stored |= set(leaf[2] if leaf[0] == "ret" else leaf[1])
+        for k in sorted(stored):
+            root = re.split(r"->|\.|\[", k, 1)[0]
+            if root in bind and k != root:
+                lw.env[bind[root] + k[len(root):]] = renorm(self.final(out, k), ren)
+            elif root not in own:
+                lw.env[k] = renorm(self.final(out, k), ren)
+        return renorm(self.result(out), ren)
 
     def value_only(self, f):
         """integer parameters, touches nothing but its own locals/parameters, calls nothing"""
@@ -1079,6 +1284,17 @@ def py_decomposition(L, repo, rule):
     sym = PySym(repo, mod, ci)
     res = sym.result(sym.run(fd))
     res = renorm(res, lambda t: V("FN") if t == V(names[0]) else None)
+    # arms that no frame number of the hyperframe can take (a range assertion, a defensive raise) are decided by intervals
+    res = prune(res, {V("FN"): (0, HYPERFRAME - 1)})
+    if any(x[0] == "raise" for x in ite_leaves(res)):
+        # a raising arm that the intervals do not exclude: refuted by a concrete frame number when one of the boundary
+        # witnesses reaches it, otherwise no verdict (below)
+        for w in boundary_witnesses(res, 0, HYPERFRAME - 1, (25, 26, 50, 51, 1325, 1326, 2047 * 1326)):
+            v = evalnum(res, {V("FN"): w})
+            if v is not None and v[0] == "raise":
+                L.ob(rule, F_GSM, "HoppingParams.fn2gsm_time", "fn2gsm_time(FN) returns (T1, T2, T3, TC) for every FN in 0..2715647",
+                     "a 4-tuple", "raises %s for FN = %d" % (v[1], w), False, fd.lineno)
+                break
     if res[0] != "tuple" or len(res) != 5:
         raise AnalysisError("HoppingParams.fn2gsm_time does not return a 4-tuple on every path: %s" % show(res)[:80])
     return fd, dict(zip(("t1", "t2", "t3", "tc"), res[1:]))
@@ -1252,14 +1468,16 @@ def r3_increment(L, repo, mods):
     L.require(rule, F_GSM, "<module>", "Python GSM_HYPERFRAME equals the firmware's GSM_MAX_FN (2715648)", HYPERFRAME, pyh)
     L.require(rule, F_GSM, "<module>", "Python GSM_SUPERFRAME equals 26 * 51", 1326, pys)
     m2, m3, mc, m1 = (find_modulus(final[x], fld(x)) for x in ("t2", "t3", "tc", "t1"))
-    L.require(rule, F_SYNC, fname, "moduli of the incremental update equal those of the decomposition (t2, t3, tc) and 2048 for t1",
-              {"t2": [mods.get("t2")], "t3": [mods.get("t3")], "tc": [mods.get("tc")], "t1": [2048]},
-              {"t2": sorted(m2), "t3": sorted(m3), "tc": sorted(mc), "t1": sorted(m1)}, line=line)
+    if mods is not None:        # None: the decomposition (R1) could not be analysed -- already recorded, nothing to compare with
+        L.require(rule, F_SYNC, fname, "moduli of the incremental update equal those of the decomposition (t2, t3, tc) and 2048 for t1",
+                  {"t2": [mods.get("t2")], "t3": [mods.get("t3")], "tc": [mods.get("tc")], "t1": [2048]},
+                  {"t2": sorted(m2), "t3": sorted(m3), "tc": sorted(mc), "t1": sorted(m1)}, line=line)
     one = lambda s: list(s)[0] if len(s) == 1 else 0
     L.require(rule, F_SYNC, fname, "t1 modulus * t2 modulus * t3 modulus == GSM_MAX_FN (the carry chain covers the hyperframe exactly)",
               HYPERFRAME, one(m1) * one(m2) * one(m3), line=line)
-    L.require(rule, F_SYNC, fname, "t2 modulus * t3 modulus == superframe length used by the decomposition (T1 = FN div 1326)",
-              mods.get("super"), one(m2) * one(m3), line=line)
+    if mods is not None:
+        L.require(rule, F_SYNC, fname, "t2 modulus * t3 modulus == superframe length used by the decomposition (T1 = FN div 1326)",
+                  mods.get("super"), one(m2) * one(m3), line=line)
     L.require(rule, F_SYNC, fname, "gcd(t2 modulus, t3 modulus) == 1 (so `t2 == 0 and t3 == 0` holds exactly at multiples of 1326)",
               1, math.gcd(one(m2), one(m3)), line=line)
     # decision tables
@@ -1312,8 +1530,18 @@ def r3_increment(L, repo, mods):
     L.floor(rule, "recompute calls", len(effs), 1)
 
 
+def _utils_tu(L):
+    return TU(L.repo, "libosmo", "src/gsm/gsm_utils.c", L=L)
+
+
 def run(L, tier):
     repo = Repo(L.repo)
-    mods, cc, pc, tu = r1_decomposition(L, repo, "C19.R1")
-    r2_recomposition(L, tu)
-    r3_increment(L, repo, mods)
+    # every rule group is a stage: a group that cannot be analysed is deferred (exit 2 unless another group
+    # recognises a violation); R2 and the decision tables of R3 do not depend on R1's verdict
+    r1 = L.stage(r1_decomposition, L, repo, "C19.R1")
+    if r1 is STAGE_FAILED:
+        mods, tu = None, L.stage(_utils_tu, L)
+    else:
+        mods, tu = r1[0], r1[3]
+    L.stage(r2_recomposition, L, tu)
+    L.stage(r3_increment, L, repo, mods)
